@@ -9,7 +9,10 @@ EXPLANATION = ("Static rules over quinn-proto/quinn MIR: (a) the rejection branc
                "zero_rtt_rejected or plainly re-initialised by the following set_params, except single named fields with a reason; (c) Retry re-queues every early "
                "stream unconditionally (rewinds its SendBuffer) and the packets' control frames; (d) remembered parameters: non-cacheable fields blanked in init_0rtt; "
                "servers never send 0-RTT; 0-RTT packets carry no ACK/CRYPTO/HANDSHAKE_DONE; (e) async mapping: stream operations of 0-RTT streams consult check_0rtt "
-               "(shared with C11.e) and blocked tasks are woken on Connected. Exactly-once delivery of accepted early data under loss is NOT decided.")
+               "(shared with C11.e) and blocked tasks are woken on Connected; EVERY site of the async layer that hands the id of a stream handle to the protocol stream accessors "
+               "(Connection::send_stream / recv_stream; includes the implicit finish/stop of Drop) is unreachable when the handle's is_0rtt mark is set and check_0rtt() "
+               "answered Err - the id of a rejected early stream names a fresh stream after the numbering restart - and stays reachable for accepted and post-handshake handles "
+               "Exactly-once delivery of accepted early data under loss is NOT decided.")
 RULE = "rule instances = (rule, site) pairs and (field) coverage obligations; non-trivial = bound to a real site / field"
 SS = 'StreamsState'
 
@@ -39,6 +42,68 @@ def closure_bodies(F, roots, depth=5):
             if t.crate == 'quinn_proto' and t.id not in seen:
                 stack.append((t, d + 1))
     return seen
+
+
+def const_bool(v, b):
+    return v[0] == 'const' and v[1] == 'int' and str(v[2]) == ('1' if b else '0')
+
+
+def bool_norm(d):
+    """(inner, negated): a bool descriptor modulo `!` and `== / != true / false`"""
+    neg = False
+    while True:
+        d, n = peel_not(d)
+        neg = neg != n
+        if d[0] == 'bin' and d[1] in ('Eq', 'Ne'):
+            for x, y in ((d[2], d[3]), (d[3], d[2])):
+                if const_bool(x, True) or const_bool(x, False):
+                    if const_bool(x, d[1] == 'Ne'):
+                        neg = not neg
+                    d = y
+                    break
+            else:
+                return d, neg
+        else:
+            return d, neg
+
+
+def bool_tests(F, body):
+    """[(Branch, inner, target when inner is true, target when inner is false)]: the bool discriminant of every branch,
+    normalised modulo `!` and `== true/false`"""
+    out = []
+    for br in branches(F, body):
+        inner, neg = bool_norm(br.desc)
+        out.append((br, inner, br.target(0 if neg else 1), br.target(1 if neg else 0)))
+    return out
+
+
+def bool_call_edges(F, body, *shorts):
+    """[(Branch, target when the call returned true, target when it returned false)] for every branch whose
+    discriminant IS the bool result of a call to one of `shorts` (modulo `!` and `== true/false`)."""
+    return [(br, t, f) for br, inner, t, f in bool_tests(F, body)
+            if inner[0] == 'call' and any(inner[1] == s or path_matches(inner[2], s) for s in shorts)]
+
+
+def skipping_branches(F, body, bb):
+    """branches that dominate `bb` and have an edge from which `bb` cannot be reached without re-evaluating them"""
+    out = []
+    for br in branches(F, body):
+        if br.bb != bb and body.dominates(br.bb, bb) and any(bb not in body.reachable_from(t, avoid=[br.bb]) for v, t in br.edges):
+            out.append(br)
+    return out
+
+
+def is_loop_step(br):
+    """`for x in ..` lowering: the discriminant of Iterator::next"""
+    return br.desc[0] == 'discr' and br.desc[1][0] == 'call' and br.desc[1][1].endswith('::next')
+
+
+def unconditional_store(F, body, bb):
+    """the block lies on every entry -> normal-return path (a `for` body counts when only its loop test skips it)"""
+    if path_avoiding(body, [0], body.return_blocks(), {bb}) is None:
+        return True
+    sk = skipping_branches(F, body, bb)
+    return bool(sk) and all(is_loop_step(br) for br in sk)
 
 
 def rule_a(ctx):
@@ -73,10 +138,24 @@ def rule_a(ctx):
                     okp = path_avoiding(pdp, [t_rej], join, {w.bb for w in pend}) is None
                 ctx.check(okp, 'a', 'rejection_discards_queued_frames', pdp, z.where(), 'spaces[Data].pending = Retransmits::default() on every rejection path',
                           'frames queued during 0-RTT (e.g. STOP_SENDING, RESET_STREAM for early streams) survive the rejection and leak into the fresh connection')
-                acc = [w for w in field_writes(F, 'connection::Connection', 'accepted_0rtt', crate='quinn_proto') if F.root_of(w.body).id == pdp.id and w.kind == 'assign']
-                ctx.check(len(acc) >= 2, 'a', 'accepted_flag_set_on_both_branches', pdp, z.where(), '%d stores' % len(acc), 'accepted_0rtt is not set on both outcomes')
+                ctx.floor('a', 'acceptance_join_sites', len(join), 1)
+                # accepted_0rtt: `false` on every rejection path, `true` on every acceptance path (or the test result itself, stored before the branch)
+                acc = store_values(ctx, 'connection::Connection', 'accepted_0rtt', in_fn=pdp)
+                r_rej = pdp.reachable_from(t_rej, avoid=join + [br.bb])
+                r_acc = pdp.reachable_from(t_acc, avoid=join + [br.bb])
+                as_test = [w for w, v in acc if v == inner and pdp.dominates(w.bb, br.bb)]
+                s_rej = [(w, v) for w, v in acc if w.bb in r_rej]
+                s_acc = [(w, v) for w, v in acc if w.bb in r_acc]
+                ok_rej = all(const_bool(v, False) for w, v in s_rej) and (bool(as_test) or (bool(s_rej) and path_avoiding(pdp, [t_rej], join, {w.bb for w, v in s_rej}) is None))
+                ok_acc = all(const_bool(v, True) for w, v in s_acc) and (bool(as_test) or (bool(s_acc) and path_avoiding(pdp, [t_acc], join, {w.bb for w, v in s_acc}) is None))
+                ctx.check(bool(join) and ok_rej and ok_acc, 'a', 'accepted_flag_set_on_both_branches', pdp, z.where(), 'accepted_0rtt = false on every rejection path, = true on every acceptance path (%d stores)' % len(acc),
+                          'accepted_0rtt is not set to the outcome of the acceptance test: %s' % ('the rejection branch does not store `false` on every path' if not ok_rej else 'the acceptance branch does not store `true` on every path'))
+                # the resumed parameters are validated against the REMEMBERED ones: on the acceptance edge only, and on every path before handle_peer_params replaces them
                 vr = pdp.calls_to('TransportParameters::validate_resumption_from')
-                ctx.check(bool(vr) and all(v.bb in pdp.reachable_from(t_acc, avoid=[br.bb]) for v in vr), 'a', 'accepted_params_validated', pdp, z.where(), 'validate_resumption_from on the acceptance branch', 'resumed parameters are no longer validated when 0-RTT is accepted')
+                okv = bool(vr) and bool(join) and all(v.bb in r_acc and v.bb not in r_rej for v in vr) \
+                    and path_avoiding(pdp, [t_acc], join, {v.bb for v in vr}) is None \
+                    and all(len(v.args) > 1 and arg_desc(F, v, 1) == ('field', ('param', 1, 'self'), 'peer_params') for v in vr)
+                ctx.check(okv, 'a', 'accepted_params_validated', pdp, z.where(), 'validate_resumption_from(&self.peer_params) on every acceptance path before handle_peer_params', 'resumed parameters are no longer validated against the remembered ones before these are replaced, when 0-RTT is accepted')
         ctx.check(ok_edge, 'a', 'rejection_on_not_accepted_edge', pdp, z.where(), 'zero_rtt_rejected only on !early_data_accepted', 'zero_rtt_rejected is not tied to the early_data_accepted() == false edge')
     who_may_call(ctx, 'a', 'zero_rtt_rejected_callers', ['StreamsState::zero_rtt_rejected'], ['Connection::process_decrypted_packet'], floor=1)
 
@@ -114,7 +193,10 @@ def rule_b(ctx):
     for f in ('max', 'initial_max_stream_data_uni', 'initial_max_stream_data_bidi_local', 'initial_max_stream_data_bidi_remote'):
         st = [(w, v) for w, v in store_values(ctx, 'state::StreamsState', f, in_fn=sp)]
         ok = bool(st) and all(not self_field(v, f) and v[0] != 'phi' for w, v in st)
-        ctx.check(ok, 'b', 'set_params_reinitialises_' + f, sp, st[0][0].where() if st else sp.where(), 'plain assignment from the transport parameters', 'set_params merges %s with its previous (remembered) value instead of replacing it' % f)
+        # ... and unconditionally: `if new > old { old = new }` is max(old, new) with a plain stored value
+        cond = [w for w, v in st if F.root_of(w.body).id != w.body.id or not unconditional_store(F, sp, w.bb)]
+        ctx.check(ok and not cond, 'b', 'set_params_reinitialises_' + f, sp, (cond[0] if cond else st[0][0]).where() if st else sp.where(), 'plain unconditional assignment from the transport parameters',
+                  'set_params merges %s with its previous (remembered) value instead of replacing it%s' % (f, ' (the store is conditional)' if cond else ''))
     # the datagram queue is deliberately not cleared (datagrams are unreliable and not bound to early streams): recorded, not a rule
     ctx.info('b', 'DatagramState (outgoing queue) is not touched by the rejection branch; queued early datagrams are sent as 1-RTT datagrams. Not claimed either way (DESIGN section 7).')
 
@@ -141,13 +223,22 @@ def rule_c(ctx):
         ctx.check(len(skipping) == len(ok_skip), 'c', 'rewind_skip_conditions', r0, c.where(), 'only `nothing sent yet` / missing entry skip the rewind', 'a new condition skips the 0-RTT rewind: %s' % [D.render(br.desc)[:60] for br in skipping if br not in ok_skip])
     sb = ctx.pfn('SendBuffer::retransmit_all_for_0rtt')
     st = [(w, v) for w, v in store_values(ctx, 'SendBuffer', 'unsent', in_fn=sb)]
-    ctx.check(bool(st) and all(v[0] == 'const' and str(v[2]) == '0' for w, v in st), 'c', 'rewind_resets_unsent', sb, sb.where(), 'unsent = 0', 'SendBuffer rewind no longer resets `unsent` to 0')
+    ctx.check(bool(st) and all(v[0] == 'const' and str(v[2]) == '0' and w.body.id == sb.id and unconditional_store(F, sb, w.bb) for w, v in st), 'c', 'rewind_resets_unsent', sb, sb.where(), 'unsent = 0 on every path',
+              'SendBuffer rewind no longer resets `unsent` to 0 unconditionally')
     pdp = ctx.pfn('Connection::process_decrypted_packet')
-    ctx.check(bool(pdp.calls_to('StreamsState::retransmit_all_for_0rtt')), 'c', 'retry_rewinds_early_streams', pdp, pdp.where(), 'Retry arm calls retransmit_all_for_0rtt', 'the Retry arm no longer re-queues early stream data')
-    # ... and the control frames carried by the abandoned early packets (RESET_STREAM, STOP_SENDING, MAX_*) go back to `pending`
     r0s = pdp.calls_to('StreamsState::retransmit_all_for_0rtt')
     # the Retry arm's drain = the one followed by retransmit_all_for_0rtt (the other drain is the rejection branch, which must discard)
-    drains = [c for c in pdp.calls_to('SentPackets::into_values') if any(x.bb in pdp.reachable_from(c.bb) for x in r0s)]
+    r0b = {x.bb for x in r0s}
+    after = [c for c in pdp.calls_to('SentPackets::into_values') if pdp.reachable_from(c.bb) & r0b]
+    before = [c for c in pdp.calls_to('SentPackets::into_values') if c not in after and path_avoiding(pdp, [0], [c.bb], r0b) is None]
+    drains = after + before
+    # every path that abandons the early packets (passes the drain) also rewinds the early streams (after it, or already before it)
+    esc = None
+    for c in after:
+        esc = esc or must_follow(F, pdp, c.bb, ['StreamsState::retransmit_all_for_0rtt'], 0)
+    ctx.check(bool(r0s) and bool(drains) and esc is None, 'c', 'retry_rewinds_early_streams', pdp, r0s[0].where() if r0s else pdp.where(), 'Retry arm: the drain of the early packets is always followed by retransmit_all_for_0rtt',
+              'the Retry arm no longer re-queues early stream data on every path: %s' % (fmt_path(pdp, esc) if esc else 'no retransmit_all_for_0rtt call after the drain'))
+    # ... and the control frames carried by the abandoned early packets (RESET_STREAM, STOP_SENDING, MAX_*) go back to `pending`
     ctx.floor('c', 'retry_drain_sites', len(drains), 1)
     for c in drains:
         rs = flow_sinks(F, c, ['BitOrAssign::bitor_assign', 'Retransmits::bitor_assign'], via_field='retransmits')
@@ -169,8 +260,19 @@ def rule_d(ctx):
             v = d.operand(c.field_op(fld), c.bb, c.idx)
             ctx.check('default' in D.render(v), 'd', 'remembered_param_defaulted_' + fld, iz, c.where(), '%s: default' % fld, 'remembered %s is reused for 0-RTT' % fld)
     sc = ctx.pfn('Connection::space_can_send')
-    srv = [br for br in branches(F, sc) if br.desc[0] == 'call' and br.desc[1] == 'ConnectionSide::is_server']
-    ctx.check(bool(srv), 'd', 'servers_never_send_0rtt', sc, sc.where(), 'is_server() in the no-keys test', 'servers can send 0-RTT packets')
+    # when the space has no keys of its own, a server leaves with SendableFrames::empty(): the is_server()==true edge never reaches can_send
+    srv = bool_call_edges(F, sc, 'ConnectionSide::is_server', 'Side::is_server')
+    snd = {c.bb for c in sc.calls_to('PacketSpace::can_send', 'Connection::can_send_1rtt')}
+    emp = {c.bb for c in sc.calls_to('SendableFrames::empty')}
+    space_keys = lambda br: any(x[0] == 'call' and x[3] and x[3][0][0] == 'field' and x[3][0][2] == 'crypto' and D.has_field(x[3][0], 'spaces') for x in walk(br.desc))
+    nokeys = [(br, t, f) for br, t, f in bool_call_edges(F, sc, 'Option::is_none') if space_keys(br)] + [(br, f, t) for br, t, f in bool_call_edges(F, sc, 'Option::is_some') if space_keys(br)]
+    ok = bool(srv) and bool(snd) and bool(emp) and bool(nokeys)
+    for br, t_srv, t_cli in srv:
+        ok = ok and not (sc.reachable_from(t_srv, avoid=[br.bb]) & snd) and bool(sc.reachable_from(t_cli, avoid=[br.bb]) & snd) \
+            and path_avoiding(sc, [t_srv], sc.return_blocks(), emp) is None
+        # the test only matters (and is only allowed to deny sending) when the space has no keys
+        ok = ok and any(sc.dominates(t_none, br.bb) and br.bb not in sc.reachable_from(t_some, avoid=[nb.bb]) for nb, t_none, t_some in nokeys)
+    ctx.check(ok, 'd', 'servers_never_send_0rtt', sc, srv[0][0].where() if srv else sc.where(), 'no keys && is_server() -> SendableFrames::empty(), clients go on to can_send', 'servers can send 0-RTT packets (or clients no longer can)')
     pp = ctx.pfn('Connection::populate_packet')
     z = [br for br in branches(F, pp, stop_named=True) if peel_not(br.desc)[0][0] == 'local' and peel_not(br.desc)[0][2] == 'is_0rtt']
     ctx.check(len(z) >= 2, 'd', 'zero_rtt_packets_restricted', pp, pp.where(), '%d is_0rtt guards (HANDSHAKE_DONE, CRYPTO)' % len(z), '0-RTT packets are no longer kept free of HANDSHAKE_DONE / CRYPTO frames')
@@ -179,12 +281,228 @@ def rule_d(ctx):
 def rule_e(ctx):
     F = ctx.facts
     fa = ctx.qfn('State::forward_app_events')
-    ok = bool([br for br in branches(F, fa) if D.has_call(br.desc, 'Connection::accepted_0rtt')]) and bool(fa.calls_to('connection::wake_all', 'wake_all'))
-    ctx.check(ok, 'e', 'rejection_wakes_blocked_stream_tasks', fa, fa.where(), 'Connected && !accepted_0rtt -> wake_all(blocked_*)', 'tasks blocked on early streams are not woken when 0-RTT turns out rejected')
+    acc = bool_call_edges(F, fa, 'Connection::accepted_0rtt')
+    ctx.floor('e', 'connected_acceptance_tests', len(acc), 1)
+    wakes = [(c, arg_desc(F, c, 0)) for c in fa.calls_to('connection::wake_all', 'connection::wake_all_notify')]
+    for m in ('blocked_writers', 'blocked_readers', 'stopped'):
+        ok = bool(acc)
+        why = 'no branch on accepted_0rtt()'
+        for br, t_acc, t_rej in acc:
+            # wake sites of this waker map that only the accepted_0rtt()==false edge leads to
+            ws = {c.bb for c, a in wakes if a == ('field', ('param', 1, 'self'), m) and fa.dominates(br.bb, c.bb) and c.bb in fa.reachable_from(t_rej, avoid=[br.bb])}
+            if not ws:
+                ok, why = False, 'no wake of self.%s on the accepted_0rtt() == false edge' % m
+                continue
+            p = path_avoiding(fa, [t_rej], set(fa.return_blocks()) | {br.bb}, ws)
+            if p is not None:
+                ok, why = False, 'a path from the accepted_0rtt() == false edge avoids the wake of self.%s: %s' % (m, fmt_path(fa, p))
+        ctx.check(ok, 'e', 'rejection_wakes_blocked_stream_tasks', fa, acc[0][0].where() if acc else fa.where(), 'Connected && !accepted_0rtt -> every task in self.%s is woken' % m,
+                  'tasks blocked on early streams (%s) are not woken when 0-RTT turns out rejected: %s' % (m, why))
     c0 = ctx.qfn('State::check_0rtt')
+    errs = effect_blocks(ctx, c0, variant=('Result', 'Err'))
+    oks = effect_blocks(ctx, c0, variant=('Result', 'Ok'))
+    acc = bool_call_edges(F, c0, 'Connection::accepted_0rtt')
+    ok = bool(errs) and bool(oks) and bool(acc)
+    for br, t_acc, t_rej in acc:
+        # accepted -> Ok(()) always; not accepted -> Err(()) possible (handshake done, client)
+        ok = ok and not (c0.reachable_from(t_acc) & errs) and bool(c0.reachable_from(t_rej) & errs) and path_avoiding(c0, [t_acc], c0.return_blocks(), oks) is None
+    for br, t_hs, t_done in bool_call_edges(F, c0, 'Connection::is_handshaking'):
+        ok = ok and not (c0.reachable_from(t_hs) & errs)
+    # the Err must be what is returned
     rd = [y for _, x in ret_descs(F, c0) for y in flat(x)]
-    ok = any(y[0] == 'agg' and y[2].endswith('Err') for y in rd) and bool([br for br in branches(F, c0) if D.has_call(br.desc, 'Connection::accepted_0rtt') or D.has_call(br.desc, 'Connection::is_handshaking')])
-    ctx.check(ok, 'e', 'check_0rtt_reports_rejection', c0, c0.where(), 'Err(()) when handshake done and !accepted_0rtt', 'check_0rtt no longer reports a rejected 0-RTT')
+    ok = ok and any(y[0] == 'agg' and y[2].endswith('Err') for y in rd) and any(y[0] == 'agg' and y[2].endswith('Ok') for y in rd)
+    ctx.check(ok, 'e', 'check_0rtt_reports_rejection', c0, c0.where(), 'Err(()) only when !accepted_0rtt (handshake done, client); Ok(()) when accepted', 'check_0rtt no longer reports exactly a rejected 0-RTT')
+
+
+# ---------------------------------------------------------------------------------------------------------------
+# (e) stale early handles are inert: after a rejection the stream ids restart, so the id held by a 0-RTT handle names
+# a FRESH stream.  Every operation of the async layer that hands the id of a stream handle to the protocol stream
+# accessors must therefore not get there when the handle is marked early and check_0rtt() reports the rejection.
+HANDLE_ID, HANDLE_MARK = 'stream', 'is_0rtt'      # fields of quinn::{SendStream, RecvStream}
+PROTO_STREAM_ACCESSORS = ['quinn_proto::Connection::send_stream', 'quinn_proto::Connection::recv_stream']
+# operations that reach the protocol stream without consulting check_0rtt in the unmodified tree (single named functions)
+# none left: finish / set_priority / priority were unguarded on the pinned tree (a stale early handle finished the fresh
+# stream reusing its id) — repaired by a fix: commit, see known_findings.json
+UNGUARDED_HANDLE_OPS = {}
+
+
+_ENVS = {}
+
+
+def captured_value(F, body, d):
+    """a capture of a closure / coroutine body (`env.<capture>`) -> the descriptor of the captured operand in the
+    defining function (so that decisions do not hang on the names of captured locals); anything else unchanged"""
+    if body.kind not in ('closure', 'coroutine') or d[0] not in ('field', 'upvar'):
+        return d
+    name = d[2] if d[0] == 'field' else d[1]
+    if d[0] == 'field' and d[1][0] not in ('upvar', 'env', 'param'):
+        return d
+    caps = [n for n, pl in body.d.get('dbg', []) if len(pl[1]) == 2 and pl[1][0] == '*' and isinstance(pl[1][1], list) and pl[1][1][0] == 'f']
+    if name not in caps or body.parent not in F.bodies:
+        return d
+    k = (id(F), body.id)
+    if k not in _ENVS:
+        par = F.bodies[body.parent]
+        dd = [x for _, x in ret_descs(F, par)] + [arg_desc(F, c, i) for c in par.calls() for i in range(len(c.args))]
+        envs = [x[3] for x0 in dd for x in walk(x0) if x[0] == 'agg' and x[1] in ('closure', 'coroutine') and x[2] == body.canon and len(x[3]) == len(caps)]
+        _ENVS[k] = list({repr(a): a for a in envs}.values())
+    envs = _ENVS[k]
+    return envs[0][caps.index(name)] if len(envs) == 1 else d
+
+
+def sibling_field(d, frm, to):
+    """descriptor of field `to` of the object whose field `frm` is `d`"""
+    if d[0] == 'field' and d[2] == frm:
+        return ('field', d[1], to)
+    if d[0] == 'upvar' and d[1].endswith('.' + frm):          # precise capture of the place `(*obj).frm`
+        return ('upvar', d[1][:-len(frm)] + to)
+    return None
+
+
+def _is_check(x):
+    while x[0] == 'call' and x[1] == 'Result::map_err' and x[3]:      # Ok/Err preserved
+        x = x[3][0]
+    return x[0] == 'call' and (x[1] == 'State::check_0rtt' or path_matches(x[2], 'State::check_0rtt'))
+
+
+def _live_defs(body, d, local, reach, seen=()):
+    """descriptors of the whole-local definitions of `local` lying in `reach` (plain copies followed); None = unknown"""
+    out = []
+    for df in body.defs_of(local):
+        if df[0] in ('stmt', 'call'):
+            if df[1] not in reach:
+                continue
+            if df[0] == 'call':
+                out.append(d.call_desc(df[2], 0))
+                continue
+            rv = df[3]
+            if rv[0] == 'use' and rv[1][0] in ('c', 'm') and not rv[1][1][1] and rv[1][1][0] not in seen and rv[1][1][0] != local:
+                out.extend(_live_defs(body, d, rv[1][1][0], reach, tuple(seen) + (local,)))
+            else:
+                out.append(d.rvalue(rv, df[1], df[2], 0))
+        else:
+            out.append(None)
+    return out
+
+
+def scenario_reach(F, body, is_mark, mark, check, avoid=()):
+    """blocks reachable from the entry in the scenario: the handle's early mark is `mark`, every check_0rtt() call
+    returns `check` ('ok' | 'err' | None = not constrained).  Branches whose bool discriminant is decided by the scenario
+    (modulo `!`, `== true/false`, is_err/is_ok/map_err/match of the check result, and bools materialised in a local all of whose
+    definitions that can be live in the scenario agree) only take the consistent edge."""
+    d = describer(F, body)
+
+    def ev(x):
+        if x is None or x[0] == 'phi':
+            return None
+        inner, neg = bool_norm(x)
+        v = None
+        if const_bool(inner, True) or const_bool(inner, False):
+            v = const_bool(inner, True)
+        elif is_mark(inner):
+            v = mark
+        elif check and inner[0] == 'call' and inner[1] in ('Result::is_err', 'Result::is_ok') and inner[3] and _is_check(inner[3][0]):
+            v = (check == 'err') == (inner[1] == 'Result::is_err')
+        return None if v is None else (v != neg)
+    reach = None
+    for _ in range(12):
+        cut = {}
+        for br in branches(F, body):
+            if br.desc[0] == 'discr':
+                if check and _is_check(br.desc[1]):
+                    ok_t = br.target(0)
+                    cut[br.bb] = [ok_t] if check == 'ok' else sorted({t for _, t in br.edges if t != ok_t})
+                continue
+            v = ev(br.desc)
+            if v is None and reach is not None:
+                op = body.blocks[br.bb]['t'][1]
+                if op[0] in ('c', 'm') and not op[1][1]:
+                    vals = {ev(x) for x in _live_defs(body, d, op[1][0], reach)}
+                    if len(vals) == 1 and None not in vals:
+                        v = vals.pop()
+            if v is not None:
+                cut[br.bb] = [br.target(1 if v else 0)]
+        r = reach_cut(body, cut, avoid)
+        if r == reach:
+            break
+        reach = r
+    return reach
+
+
+def reach_cut(body, cut, avoid=()):
+    """blocks reachable from the entry when the blocks in `cut` only continue to the given successors"""
+    seen, stack, avoid = set(), [0], set(avoid)
+    while stack:
+        x = stack.pop()
+        if x in seen or x in avoid:
+            continue
+        seen.add(x)
+        stack.extend(cut[x] if x in cut else body.succ[x])
+    return seen
+
+
+def rule_e_handles(ctx):
+    F = ctx.facts
+    sites = [c for c in F.callers_of(*PROTO_STREAM_ACCESSORS, crate='quinn') if not is_noise(c)]
+    by_body = {}
+    for c in sites:
+        by_body.setdefault(c.body.id, []).append(c)
+    guarded = set()
+    for bid, cs in sorted(by_body.items()):
+        b = cs[0].body
+        root = F.root_of(b)
+        tests = bool_tests(F, b)
+        checks = {c.bb for c in b.calls_to('State::check_0rtt')}
+        # the early mark that belongs to the stream id handed to the accessor
+        ids = {repr(x): x for x in (captured_value(F, b, arg_desc(F, c, 1)) for c in cs)}
+        marks, why = [], ''
+        for idd in ids.values():
+            if idd[0] == 'param':
+                # id received from the caller: the mark is a bool parameter, and every caller passes id and mark of ONE handle
+                callers = [k for k in F.callers_of(b.id, crate='quinn') if not is_noise(k)]
+                for p in range(1, b.argc + 1):
+                    if b.locals[p][0] != 'bool' or not callers:
+                        continue
+                    sib = lambda k: sibling_field(captured_value(F, k.body, arg_desc(F, k, idd[1] - 1)), HANDLE_ID, HANDLE_MARK)
+                    if all(sib(k) is not None and bool_norm(captured_value(F, k.body, arg_desc(F, k, p - 1))) == (sib(k), False) for k in callers):
+                        marks.append(lambda x, p=p: x[0] == 'param' and x[1] == p)
+                if not marks:
+                    why = 'the stream id is a parameter and no bool parameter receives the `%s` mark of the same handle at every call site' % HANDLE_MARK
+            else:
+                m = sibling_field(idd, HANDLE_ID, HANDLE_MARK)
+                if m is None:
+                    why = 'the stream id handed to the accessor (%s) is not the `%s` field of a stream handle' % (D.render(idd)[:60], HANDLE_ID)
+                else:
+                    marks.append(lambda x, m=m: captured_value(F, b, x) == m)
+        mark_tests = [(br, t, f) for br, inner, t, f in tests if marks and any(mk(inner) for mk in marks)]
+        if root.short in UNGUARDED_HANDLE_OPS and not mark_tests and not checks:
+            ctx.ok('e', 'early_handle_inert_after_rejection', b, cs[0].where(), 'exception - %s' % UNGUARDED_HANDLE_OPS[root.short])
+            continue
+        is_mark = lambda x: any(mk(x) for mk in marks)
+        # early handle, check_0rtt never answered Ok: no accessor call
+        r_rej = scenario_reach(F, b, is_mark, True, 'err')
+        # early handle, check_0rtt answered Ok (still handshaking / accepted): the operation is carried out
+        r_acc = scenario_reach(F, b, is_mark, True, 'ok')
+        # handle opened after the handshake: carried out without asking check_0rtt (which says Err for every stream of a rejected connection)
+        r_late = scenario_reach(F, b, is_mark, False, None, avoid=checks)
+        for c in cs:
+            w = why
+            if not w and c.bb in r_rej:
+                w = ('no branch on the `%s` mark of the handle whose id is used' % HANDLE_MARK if not mark_tests else 'check_0rtt() is not consulted' if not checks
+                     else 'the accessor call is reachable with the mark set and without check_0rtt() having returned Ok')
+            ctx.check(not w, 'e', 'early_handle_inert_after_rejection', b, c.where(), '%s && check_0rtt().is_err() never reaches %s(id)' % (HANDLE_MARK, short(c.f)),
+                      '%s hands the id of a 0-RTT stream handle to %s although early data was rejected (%s): after a rejection the id names a fresh stream, which the stale handle then finishes / resets / stops / reads' % (root.short, short(c.f), w))
+            if not w:
+                guarded.add(bid)
+                ctx.check(c.bb in r_acc and c.bb in r_late, 'e', 'handle_guard_only_for_rejected_early', b, c.where(), 'accepted early handles and post-handshake handles still reach %s' % short(c.f),
+                          '%s no longer operates on %s' % (root.short, 'early streams whose 0-RTT was accepted' if c.bb not in r_acc else 'streams opened after the handshake (check_0rtt() is Err for every stream of a connection whose 0-RTT was rejected)'))
+    ctx.floor('e', 'guarded_handle_operations', len(guarded), 8)
+    # the implicit finish / stop of a dropped handle is among them
+    for adt in ('SendStream', 'RecvStream'):
+        dr = ctx.qfn('<%s as Drop>::drop' % adt)
+        if dr.id not in by_body:
+            ctx.bad('e', 'early_handle_inert_after_rejection', dr, dr.where(), 'dropping a %s no longer reaches the protocol stream directly: the implicit finish/stop moved where this rule does not follow it' % adt)
+    ctx.info('e', 'operations reaching the protocol stream of a handle without check_0rtt (exceptions): %s' % '; '.join('%s - %s' % kv for kv in sorted(UNGUARDED_HANDLE_OPS.items())))
 
 
 def run(ctx):
@@ -193,3 +511,4 @@ def run(ctx):
     rule_c(ctx)
     rule_d(ctx)
     rule_e(ctx)
+    rule_e_handles(ctx)
